@@ -201,6 +201,7 @@ func runSPH(t *testing.T, ksc KScenario, res *KResult) {
 	curMTU := protocol.ByteCount(1200)
 	var peerECT0, peerCE uint64 // ECN counters of the model peer (application space)
 	lastAckElicSpace := -1
+	peerValidated := false // client: an ACK in the Handshake or application space has been processed
 	sendOrd := 0                // global send ordinal
 	lastCutOrd := -1            // ordinal of the newest packet that had been sent when the window was last reduced
 
@@ -439,6 +440,9 @@ func runSPH(t *testing.T, ksc KScenario, res *KResult) {
 		m.what = what
 		_, err := hi.ReceivedAck(ack, lvl, now)
 		gotAck = true
+		if err == nil && sp >= 1 {
+			peerValidated = true // an acknowledgment in a protected space: the server has processed a Handshake packet of the client
+		}
 		res.Shape(fmt.Sprintf("A%d/%d", sp, len(ranges)))
 		res.Logf("ack %s %v delay=%v err=%v", sphSpaceName[sp], ranges, delay, err)
 		if err != nil {
@@ -494,6 +498,7 @@ func runSPH(t *testing.T, ksc KScenario, res *KResult) {
 		if alive[2] {
 			peekBefore, _ = hi.PeekPacketNumber(protocol.Encryption1RTT)
 		}
+		lossTime, _ := h.getLossTimeAndSpace()
 		err := hi.OnLossDetectionTimeout(now)
 		// a PTO in the application space burns one packet number (plus the generator's pending skip)
 		if peekBefore >= 0 {
@@ -511,6 +516,19 @@ func runSPH(t *testing.T, ksc KScenario, res *KResult) {
 		}
 		res.Probe("timer-fired")
 		res.Shape("T")
+		// C06, deadline clause seen from the other end: a deadline that expires must have an effect. A client whose peer has
+		// not completed address validation (no acknowledgment in a protected space yet, handshake not confirmed) owes an
+		// anti-deadlock probe at every PTO expiry, whatever is or is not in flight (RFC 9002, section 6.2.2.1) - in
+		// particular with nothing but 0-RTT packets in flight.
+		if !sc.Server && !peerValidated && !confirmed && (alive[0] || alive[1]) && lossTime.IsZero() {
+			switch hi.SendMode(now) {
+			case SendPTOInitial, SendPTOHandshake, SendPTOAppData:
+				res.Probe("anti-deadlock-probe-requested")
+			default:
+				res.Fail("loss-detection deadline expired on a client whose peer has not completed address validation, but no probe is requested", "send mode %v after %s; spaces alive %v", hi.SendMode(now), what, alive)
+				return
+			}
+		}
 		res.Logf("timer fired after %v (+%v), mode now %v", d, extra, hi.SendMode(now))
 		switch mode := hi.SendMode(now); mode {
 		case SendPTOInitial, SendPTOHandshake, SendPTOAppData:
